@@ -104,7 +104,8 @@ class HistGen:
         belief = max_spread = None
         r = rng.random()
         if r < 0.25:
-            max_spread = rng.choice([0, 10 ** 15, 10 ** 16, 5 * 10 ** 16, 5 * 10 ** 17, D, D + 1, rng.randrange(0, D)])
+            max_spread = rng.choice([0, 10 ** 15, 10 ** 16, 5 * 10 ** 16, 5 * 10 ** 17, D, D + 1, rng.randrange(0, D),
+                                     (1 << 64) + rng.randrange(0, D), M128])
         if r < 0.1 and y > 0 and x > 0:
             # belief price in human units around the pool price
             do, da = p.decimals[i], p.decimals[1 - i]
@@ -333,6 +334,11 @@ class HistGen:
             receiver = rng.choice(self.recipients)
         if S == 0 and actor not in p.whitelist and p.whitelist and rng.random() < 0.5:
             receiver = rng.choice(p.whitelist)   # stranger provides "for" a whitelisted account
+        r_ = rng.random()
+        if r_ < 0.05:
+            receiver = rng.choice([p.addr, p.lp, w.router, w.factory] + [a[1] for a in p.assets if a[0] == "t"])   # contracts as LP receivers
+        elif r_ < 0.07:
+            receiver = rng.choice(["Recv", "re", "", "r" * 64])     # not an address: the call must fail
         op = w.op_provide(actor, p, amounts, receiver=receiver, slippage=slippage, reverse=rng.random() < 0.3)
         return op, [(p.addr, {"pool": {}})]
 
@@ -543,7 +549,9 @@ class HistGen:
         elif r < 0.45:
             to = rng.choice(self.recipients)
         elif r < 0.5:
-            to = rng.choice([p.addr for p in w.pairs] + [w.router])
+            to = rng.choice([p.addr for p in w.pairs] + [w.router, w.router, w.factory] + [t[1] for t in w.tokens] + [w.pairs[0].lp])
+        elif r < 0.52:
+            to = rng.choice(["Recv", "re", "", "r" * 64, "Trader1"])   # not an address: the route must fail as a whole
         hops = spec["hops"]
         final = hops[-1][1]
         revisit = final in [a for _, a in hops[:-1]] or final == hops[0][0]
